@@ -16,6 +16,7 @@ type sweepSpec struct {
 	Mixed     bool // stratum C
 	FullHdr   int  // full header product for programs with <= FullHdr tokens in total
 	Flags     bool // entries may contain inline flag groups
+	Struct2   int  // stratum B2: bodies of <= Struct2 lines over structLines2 (at least one line outside structLines)
 	HdrOnly   bool // stratum H: programs whose body assembles to nothing (prefix / suffix lines only, empty blocks)
 }
 
@@ -130,6 +131,25 @@ func (s sweepSpec) programs(shard, n int, visit func(stratum string, p Prog)) (t
 				return
 			}
 			emit("B", tokLines(ls), fewHeaders[:2])
+		})
+	}
+	if s.Struct2 > 0 {
+		core := map[string]bool{}
+		for _, l := range structLines {
+			core[l] = true
+		}
+		enumSeq(len(structLines2), s.Struct2, func(_ int, seq []int) {
+			ls := make([]string, len(seq))
+			extra, entry := false, false
+			for i, x := range seq {
+				ls[i] = structLines2[x]
+				extra = extra || !core[ls[i]]
+				entry = entry || !strings.HasPrefix(strings.TrimSpace(ls[i]), "##!") && strings.TrimSpace(ls[i]) != ""
+			}
+			if !extra || !entry || !wellFormedBody(ls) {
+				return
+			}
+			emit("B2", tokLines(ls), fewHeaders[:1])
 		})
 	}
 	return idx
